@@ -37,16 +37,16 @@ ASSUMPTIONS = ["numpy.linalg.eigvalsh / dense matrix-vector products on <= 4096-
                "DMRG_out.energy of a penalised run is compared with <psi|H|psi> of the MPO(s) H (the value the test-suite "
                "asserts), not with the penalised functional"]
 
-ETOL = 1e-9        # energy consistency / variational / monotonicity, times max(1, ||H||)
-NTOL = 1e-10       # norm, canonical form
+ETOL = 1e-10       # energy consistency / variational / monotonicity, times max(1, ||H||)
+NTOL = 1e-11       # norm, canonical form
 RES_TOL = 1e-4     # eigen-residual of a converged full-manifold run, times ||H||
 CONV_DE = 1e-12
 
 
 def plan(tier):
     if tier == "thorough":
-        return {"cases": 4200, "shards": 16, "budget_s": 800}
-    return {"cases": 420, "shards": 8, "budget_s": 100}
+        return {"cases": 5600, "shards": 16, "budget_s": 800}
+    return {"cases": 350, "shards": 8, "budget_s": 110}
 
 
 def floors(tier):
@@ -113,6 +113,7 @@ OPTS_EIGS = (None, None,
 # ------------------------------------------------------------------ Krylov interposer (API boundary, no source edit)
 
 KRY = {"installed": False, "worst": 0.0, "info": None, "calls": 0}
+EIGS_KEY = "eigs:krylov-basis-not-orthonormal"
 
 
 def install_krylov_probe():
@@ -148,6 +149,15 @@ def krylov_reset():
 
 
 # ------------------------------------------------------------------ the oracle
+
+def within(ctx, name, err, allowed):
+    """ctx.margin, but observations that violate are recorded under a separate name so that the worst *passing* margin
+    stays visible next to the known findings."""
+    if err <= allowed:
+        return ctx.margin(name, err, allowed)
+    ctx.margin(name + " (violating cases)", err, allowed)
+    return False
+
 
 class Dense(T.Sector):
     """Dense sector data of one case (+ penalty terms of a projected run)."""
@@ -191,16 +201,17 @@ def observe(ctx, psi, dn, tag, witness, out=None, gram=0.0):
     nv = float(np.linalg.norm(v))
     two = out is not None and out.method == "2site"
     dw = float(out.max_discarded_weight) if (two and out.max_discarded_weight is not None) else 0.0
-    if not ctx.margin("norm" + (":after-2site-sweep" if two else ""), abs(nv - 1.0), NTOL):
+    if not within(ctx, "norm" + (":after-2site-sweep" if two else ""), abs(nv - 1.0), NTOL):
         if two and dw > 1e-14 and 1 - dw * dw - 1e-9 <= nv * nv <= 1 + 1e-9:
             ctx.violation("not-normalised:2site-truncation",
                           f"{tag}: ||psi|| = {nv!r} after a 2site sweep with max_discarded_weight = {dw!r}: post_2site_ keeps the "
                           f"truncated Schmidt values un-normalised and _dmrg_sweep_2site_ never renormalises", witness)
         elif two and gram > 1e-8:
-            ctx.violation("not-normalised:2site-eigs-vector",
+            ctx.violation(EIGS_KEY,
                           f"{tag}: ||psi|| = {nv!r} after a 2site sweep in which eigs combined a Krylov basis that was not orthonormal "
-                          f"(max |<V_i|V_j> - delta_ij| = {gram:.2e}; Krylov space exhausted, residual above the fixed 1e-13 happy-breakdown "
-                          f"threshold): the Ritz vector is not a unit vector and _dmrg_sweep_2site_ never renormalises", witness)
+                          f"(max |<V_i|V_j> - delta_ij| = {gram:.2e}: Lanczos without re-orthogonalisation kept expanding after the Krylov "
+                          f"space was exhausted / the start vector had converged, the residual staying above the fixed 1e-13 happy-breakdown "
+                          f"threshold); the Ritz vector is then not a unit vector and _dmrg_sweep_2site_ never renormalises", witness)
         else:
             ctx.violation("not-normalised", f"{tag}: ||psi|| = {nv!r}", witness)
     if psi.factor != 1:
@@ -219,7 +230,7 @@ def observe(ctx, psi, dn, tag, witness, out=None, gram=0.0):
     return v[dn.idx] / nv, nv
 
 
-def judge_sweep(ctx, out, vs, nv, dn, st, tag, witness):
+def judge_sweep(ctx, out, vs, nv, dn, st, tag, witness, gram=0.0):
     """Energy clauses after one sweep.  st: running state of the monitored run (dict).
 
     E  = Rayleigh quotient of the returned state (variational bound, monotonicity);
@@ -236,7 +247,7 @@ def judge_sweep(ctx, out, vs, nv, dn, st, tag, witness):
         if penal:
             ctx.count("energy_checks_penalised")
             err = min(abs(out.energy - Eu), abs(out.energy - Epu))      # either reading of "energy" of a penalised run
-            if not ctx.margin("energy:penalised", err, tol):
+            if not within(ctx, "energy:penalised", err, tol):
                 bare = nv * sum(float(np.real(np.vdot(vs, v))) for _, v in dn.pen)
                 ovl = sum(abs(np.vdot(v, vs)) for _, v in dn.pen)
                 if abs(out.energy - (Eu + bare)) <= tol:
@@ -261,10 +272,11 @@ def judge_sweep(ctx, out, vs, nv, dn, st, tag, witness):
     nothing_truncated = (dw is None) or (dw <= 1e-14)
     if nothing_truncated:
         ctx.count("monotone_judged")
-        if not ctx.margin("monotone", max(0.0, Ep - st["Ep_prev"]), tol):
-            ctx.violation("energy-increased:" + ("penalised" if penal else str(out.method)),
+        if not within(ctx, "monotone", max(0.0, Ep - st["Ep_prev"]), tol):
+            ctx.violation(EIGS_KEY if gram > 1e-8 else "energy-increased:" + ("penalised" if penal else str(out.method)),
                           f"{tag}: energy rose from {st['Ep_prev']!r} to {Ep!r} (+{Ep - st['Ep_prev']:.3e}) although nothing was truncated "
-                          f"(max_discarded_weight={dw})", witness)
+                          f"(max_discarded_weight={dw})" + (f"; eigs combined a Krylov basis that was not orthonormal in this sweep (max "
+                          f"|<V_i|V_j> - delta_ij| = {gram:.2e}), so its Ritz vector need not lower the energy" if gram > 1e-8 else ""), witness)
     else:
         ctx.count("monotone_not_judged_truncation")
         ctx.count("truncation_binding_sweeps")
@@ -348,7 +360,7 @@ def monitored_run(ctx, psi, H, dn, counts, cfgrun, tag, witness, stop_when_conve
         if vs_new is None:
             break
         vs = vs_new
-        judge_sweep(ctx, out, vs, nv, dn, st, f"{tag} sweep {k}", w)
+        judge_sweep(ctx, out, vs, nv, dn, st, f"{tag} sweep {k}", w, gram=gram)
         last = out
         if k < len(plan_methods) and plan_methods[k] != plan_methods[k - 1]:
             method.update_(plan_methods[k])
@@ -427,12 +439,12 @@ def run_case(ctx, idx):
 
     # ---------------- convergence stage (premise-conditioned eigenstate clause)
     want = rng.random() < (0.5 if ctx.tier == "thorough" else 0.45)
-    if not want or len(dn.idx) < 2 or len(dn.idx) > 300:
+    if not want or len(dn.idx) < 2 or len(dn.idx) > 150 or sp.d ** N > 300:
         return
     ctx.count("convergence_stage_runs")
     psi_c = T.make_mps(rng, cs["nprng"], sp, N, n, mode="full", dtype=rng.choice(("float64", "complex128")), counts=counts)
     m2 = rng.choice(("1site", "2site"))
-    cfg2 = {"methods": [m2] * 40, "use_Method": False, "precompute": rng.random() < 0.5,
+    cfg2 = {"methods": [m2] * 30, "use_Method": False, "precompute": rng.random() < 0.5,
             "opts_eigs": {"hermitian": True, "ncv": rng.choice((6, 10)), "which": "SR"},
             "opts_svd": {"D_total": 100000} if m2 == "2site" else None}
     w2 = dict(witness, stage="converge", run2={k: repr(v) for k, v in cfg2.items()})
@@ -467,7 +479,7 @@ def run_case(ctx, idx):
     dn.add_penalty(penalty, vs)
     psi_p = T.make_mps(rng, cs["nprng"], sp, N, n, mode="full", dtype=rng.choice(("float64", "complex128")), counts=counts)
     m3 = rng.choice(("1site", "2site"))
-    cfg3 = {"methods": [m3] * 60, "use_Method": False, "precompute": rng.random() < 0.5,
+    cfg3 = {"methods": [m3] * 40, "use_Method": False, "precompute": rng.random() < 0.5,
             "opts_eigs": {"hermitian": True, "ncv": rng.choice((6, 10)), "which": "SR"},
             "opts_svd": {"D_total": 100000} if m3 == "2site" else None, "project": project}
     w3 = dict(witness, stage="penalised", penalty=penalty, default_penalty=default_pen, run3={k: repr(v) for k, v in cfg3.items() if k != "project"})
